@@ -143,6 +143,9 @@ func (ex *Exec) intrinsic(th *Thread, caller *frame, fn *ssa.Function, args []Va
 		return nil
 	case "vTimerMode":
 		ex.timerMode = int(ex.intOf(args[0], "timer mode"))
+		if ex.timerMode == 1 {
+			ex.res.TimerNondet = true
+		}
 		return nil
 	case "vTimerChan":
 		et := fn.Signature.Results().At(0).Type().Underlying().(*types.Chan).Elem()
@@ -203,6 +206,8 @@ func (ex *Exec) intrinsic(th *Thread, caller *frame, fn *ssa.Function, args []Va
 		r := ex.ts.Bin(op, x, y)
 		fits := ex.ts.Eq(ex.ts.Sext(ex.ts.Extract(r, 63, 0), 64), r)
 		return ex.fromTerm(ex.ts.Not(fits))
+	case "vSleepMs":
+		return nil
 	case "vLabel":
 		ex.labels = append(ex.labels, ex.concreteString(args[0], "label"))
 		return nil
